@@ -11,6 +11,7 @@ import (
 
 	"pgregory.net/rapid"
 
+	"verifharness/gen"
 	"verifharness/knutio"
 	"verifharness/ref"
 	"verifharness/stats"
@@ -409,6 +410,11 @@ func c13aText(t *rapid.T, label string, inDesc, latin1 bool, f c13aFeats) string
 			toks = c13aTokensLatin1
 		}
 		s = strings.Join(rapid.SliceOfN(rapid.SampledFrom(toks), 1, 6).Draw(t, label), "")
+	}
+	if gen.Rare(t, label+"Long", 4) {
+		// a notification text of several hundred bytes with multi-byte letters at every alignment
+		n := rapid.IntRange(12, 40).Draw(t, label+"LongN")
+		s = strings.TrimSpace(s + " " + strings.Repeat(rapid.SampledFrom([]string{"Überweisung ", "Zürich-Örlikon ", "é", "Gebühr für März "}).Draw(t, label+"LongTok"), n))
 	}
 	if inDesc && strings.Contains(s, `"`) {
 		if c13aExcludeQuote {
